@@ -169,7 +169,6 @@ func (c *connection) stop() {
 		c.terminalEvent.OnLeaveEvent(c.key)
 		close(c.stopChan)
 		_ = c.conn.Close()
-		clear(c.handles)
 		close(c.msgChan)
 		close(c.activeMsgChan)
 		close(c.reissuePackChan)
